@@ -54,3 +54,16 @@ OBLIGATIONS += [
                             (0, "ctor", "h_ctor", "CompiledVm_ctor"), (0, "run", "h_run", "CompiledVm_run"))
     for sj in (1, 0)
 ]
+
+OBLIGATIONS += [dict(XS.CREATE_VM_OB, name="create_vm_secure_flag_selects_secure_class")]
+
+OBLIGATIONS += [{
+    "name": "cache_jit_buffer_rw_then_rx",
+    "files": [{"cxx": XS.DATASET_COMPILE, "out": "ds.c", "header": True}, "harness_cache_prot.c"],
+    "incdirs": INC, "defines": ['RXV_CONTRACTS_H="contracts_vm_prot.h"', "RXV_CACHE_PROT=1", "LIGHT=1"],
+    "entry": "h_init_cache_compile", "enforce": "initCacheCompile",
+    "replace": ["initCache", "JitCompilerX86_enableWriting", "JitCompilerX86_enableExecution", "JitCompilerX86_generateSuperscalarHash",
+                "JitCompilerX86_generateDatasetInitCode"],
+    "checks": ["--bounds-check", "--pointer-check"],
+    "expect_classes": ["postcondition", "precondition"], "expect_min": 4,
+}]
